@@ -33,6 +33,15 @@ def gen_cases(tier, spin):
     def it():
         for D in gen.polys(N, maxterms, COEFS, offsets=OFFSETS):
             yield {"part": "single", "poly": rp.jdict(D), "spin": spin}
+        # wide, asymmetric value ranges (binary slack of 4-5 bits, sign+magnitude ancillas of `!=`): two variables
+        wide = (-10, -9, -7, -5, -3, 3, 5, 7, 9, 10) if not spin else (-5, -3, 3, 5)
+        unit = (-1, 1)
+        for D in gen.polys(2, 2, wide + unit, offsets=(0, 1, -1), minterms=1):
+            if not any(abs(v) > 2 for k, v in D.items() if k):
+                continue
+            if tier == "quick" and sum(1 for k in D if k) == 2 and not any(abs(v) == 1 for k, v in D.items() if k):
+                continue     # quick: one wide coefficient next to a unit one (the asymmetric ranges); thorough: all pairs
+            yield {"part": "single", "poly": rp.jdict(D), "spin": spin, "wide": True}
         if spin and tier == "quick":
             # two-term polynomials with unit coefficients only (the full two-term space is the thorough tier)
             for D in gen.polys(N, 2, (-1, 1), offsets=(0, 1), minterms=2):
@@ -95,7 +104,9 @@ def check_single(case, st):
             want = holds(rel, tP)
             for lt in ((True, False) if rel != "eq" else (True,)):
                 for bk in BOUNDS:
-                    for lam in LAMS:
+                    for lam in (LAMS if not case.get("wide") else LAMS[:1]):
+                        if case.get("wide") and bk not in ("omitted", "exact", "loosehalf"):
+                            continue
                         reduced = (bk == "omitted" and lam == 1)
                         fl = [("dict", lambda: dict(DL))]
                         if reduced:
@@ -278,6 +289,7 @@ def run(ctx, spin):
     menu = SPIN_MENU if spin else MENU
     ctx.bounds = {"n": N, "coefs": COEFS, "offsets": OFFSETS, "relations": RELS, "bounds": BOUNDS, "lams": LAMS,
                   "max_terms": ((2 if ctx.quick else 3) if not spin else ("1, plus 2 with unit coefficients" if ctx.quick else 2)),
+                  "wide_slice": "two variables, <=2 terms with a coefficient from %s (quick: paired with a unit coefficient), offsets {0,1,-1}, bounds omitted/exact/loose-half, lam 1" % ((-10, -9, -7, -5, -3, 3, 5, 7, 9, 10) if not spin else (-5, -3, 3, 5),),
                   "forms": "dict everywhere; PUBO/PUSO object and variable expression where bounds omitted and lam=1", "max_ancillas": MAX_ANC,
                   "sequence_menu": [[m[0], rp.jdict(m[1]), m[2]] for m in menu],
                   "sequence_length": 2 if (ctx.quick or spin) else "2 and 3"}
@@ -288,7 +300,7 @@ def run(ctx, spin):
 def replay(case):
     st = Stats()
     if case["part"] == "single":
-        check({"part": "single", "poly": case["poly"], "spin": case.get("spin", False)}, st)
+        check({"part": "single", "poly": case["poly"], "spin": case.get("spin", False), "wide": case.get("wide", False)}, st)
     else:
         check({"part": "seq", "seq": case["seq"], "spin": case.get("spin", False)}, st)
     return [(s, m) for s, c, m in st.viol]
